@@ -1,5 +1,73 @@
 import GT.Base.JsonQ
-open Lean GT.J
+import GT.Model.DrawPath
+open Lean GT.J GT GT.DrawPath
 namespace GT.Driver.C19
-def ops : List (String × Handler) := []
+
+def ptOf (j : Json) : R (ℚ × ℚ) := do
+  let a ← qArr j
+  if a.size ≠ 2 then throw "expected [x, y]"
+  return (a[0]!, a[1]!)
+
+def ofPt (p : ℚ × ℚ) : Json := .arr #[ofQ p.1, ofQ p.2]
+
+/-- matplotlib's numeric path codes -/
+def codeOf (j : Json) : R Code := do
+  match (← nat j) with
+  | 1 => pure .moveto | 2 => pure .lineto | 4 => pure .curve4
+  | n => throw s!"unsupported path code {n}"
+
+def ofCode : Code → Json
+  | .moveto => (1 : Nat) | .lineto => (2 : Nat) | .curve4 => (4 : Nat)
+
+def pieceOf (j : Json) : R (Piece ℚ) := do
+  let vs ← (← arr (← field j "verts")).mapM ptOf
+  let cs ← (← arr (← field j "codes")).mapM codeOf
+  return ⟨vs.toList, cs.toList, ← ptOf (← field j "p1"), ← ptOf (← field j "p2")⟩
+
+/-- `get_polygon_arcpath` on the pieces of a polygon's edges -/
+def assembleOp (j : Json) : R Json := do
+  let pcs ← (← arr (← field j "pieces")).mapM pieceOf
+  let τ2 ← qf j "tau2"
+  match assemble τ2 pcs.toList with
+  | none => throw "IndexError"
+  | some (vs, cs) =>
+    return Json.mkObj [("verts", .arr (vs.map ofPt).toArray), ("codes", .arr (cs.map ofCode).toArray)]
+
+/-- the radius-threshold switch: which kind of piece is used -/
+def edgeOp (j : Json) : R Json := do
+  let thr ← qf j "thr"
+  let radius : Option ℚ ← match j.getObjVal? "radius" with
+    | .ok .null => pure none
+    | .ok v => do pure (some (← toQ v))
+    | .error _ => pure none
+  let p1 ← ptOf (← field j "p1")
+  let p2 ← ptOf (← field j "p2")
+  let pc := edgePiece thr radius ([], []) (p1, p2) p1 p2
+  return .str (if pc.verts.isEmpty then "arc" else "straight")
+
+def optX (j : Json) : R (Option ℚ × ℚ) := do
+  let a ← arr j
+  if a.size ≠ 2 then throw "expected [x|null, y]"
+  let x : Option ℚ ← match a[0]! with
+    | .null => pure none
+    | v => do pure (some (← toQ v))
+  return (x, ← toQ a[1]!)
+
+def ofOptPt (p : Option ℚ × ℚ) : Json :=
+  .arr #[match p.1 with | some x => ofQ x | none => .null, ofQ p.2]
+
+/-- `get_vertical_segment` -/
+def verticalOp (j : Json) : R Json := do
+  let r := verticalSegment (← qf j "left") (← qf j "right") (← qf j "up")
+    (← optX (← field j "e0")) (← optX (← field j "e1"))
+  return .arr #[ofOptPt r.1, ofOptPt r.2]
+
+def guardOp (j : Json) : R Json := do
+  match preprocess (← natf j "dimension") with
+  | .ok _ => return .str "ok"
+  | .error e => throw e
+
+def ops : List (String × Handler) :=
+  [("c19.assemble", assembleOp), ("c19.edge_kind", edgeOp), ("c19.vertical", verticalOp),
+   ("c19.guard", guardOp)]
 end GT.Driver.C19
